@@ -95,6 +95,19 @@ def run(facts, rep, ctx):
             rep.ok(R4, {"encoder": name, "token_sizes": sorted(sizes), "threshold": sorted(thr)})
         else:
             rep.violation(R4, b.name, "expansion", "%s can spend %s bytes on a reference covering only %s" % (name, sorted(sizes), sorted(thr)), where)
+    # ---- R10.5: one flag byte per eight tokens, none without a token ------------------------------------
+    R5 = rep.rule("R10.5", "group accounting: a flag byte is emitted per 8 tokens and at the end only if a token is buffered (no stray bytes)", floor=8)
+    from c08 import token_checks
+    for name, (fn, lpred, ldesc) in sorted(ENCODERS.items()):
+        b = facts.body(fn)
+        if b is None:
+            continue
+        try:
+            enc = Encoder(facts, b)
+        except PathLimit:
+            continue
+        if enc.search is not None:
+            token_checks(rep, R5, R5, enc, [], "%s:%s" % (b.file, b.line))
     if len(search_fns) != 1:
         rep.inconc(R3, "the two encoders do not share one search function: %s" % sorted(search_fns))
         return
